@@ -809,3 +809,47 @@ Proof.
   intros Ho Hpy Hd Hls Hok. apply children_upper; auto.
   intros d Hin. apply dir_ok2_dir_ok; auto.
 Qed.
+
+(* ---------------------------------------------------------------- relative file names *)
+
+Section RelProofs.
+  Variable fs : path -> kind.
+  Variable cwd : path.
+  Hypothesis cwd_ok : forall k, exists_ fs (firstn k cwd ++ [init_py]) = false.
+
+  Lemma collect_rel_abs D : forall acc f1 f2, length D < f1 -> length D < f2 ->
+    collect_rel fs cwd f1 D acc = collect fs f2 (cwd ++ D) acc.
+  Proof using cwd_ok.
+    induction D as [|x D IH] using rev_ind; intros acc f1 f2 H1 H2.
+    - destruct f1; [simpl in H1; lia|]. destruct f2; [simpl in H2; lia|].
+      cbn [collect_rel collect is_nil]. rewrite app_nil_r.
+      pose proof (cwd_ok (length cwd)) as Hc. rewrite firstn_all in Hc. rewrite Hc. reflexivity.
+    - rewrite app_length in H1, H2. simpl in H1, H2.
+      destruct f1; [lia|]. destruct f2; [lia|]. cbn [collect_rel collect].
+      assert (Hn : is_nil (D ++ [x]) = false) by (destruct D; reflexivity). rewrite Hn.
+      replace ((cwd ++ D ++ [x]) ++ [init_py]) with (cwd ++ (D ++ [x]) ++ [init_py])
+        by (rewrite <- !app_assoc; reflexivity).
+      destruct (exists_ fs (cwd ++ (D ++ [x]) ++ [init_py])); [|reflexivity].
+      unfold dirname. rewrite (app_assoc cwd D [x]). rewrite !removelast_last, !last_last.
+      apply IH; lia.
+  Qed.
+
+  (* a relative file name gives the same answer as the absolute name of the same file, for every
+     level (also beyond the top-level package), when the working directory is not inside a package *)
+  Theorem norm_rel_abs level rest rel :
+    norm_package_rel fs cwd level rest rel = norm_package fs level rest (cwd ++ rel).
+  Proof using cwd_ok.
+    unfold norm_package_rel, norm_package. destruct (level =? 0); [reflexivity|].
+    rewrite !iter_dirname. rewrite app_length.
+    destruct (Nat.le_gt_cases level (length rel)) as [L|L].
+    - replace (length cwd + length rel - level) with (length cwd + (length rel - level)) by lia.
+      rewrite firstn_app. rewrite (firstn_all2 cwd) by lia.
+      replace (length cwd + (length rel - level) - length cwd) with (length rel - level) by lia.
+      rewrite (collect_rel_abs (firstn (length rel - level) rel) [] (S (length rel))
+                 (S (length cwd + length rel))); [reflexivity| |];
+        pose proof (firstn_le_length (length rel - level) rel); lia.
+    - replace (length rel - level) with 0 by lia. cbn [firstn collect_rel is_nil].
+      rewrite firstn_app. replace (length cwd + length rel - level - length cwd) with 0 by lia.
+      cbn [firstn]. rewrite app_nil_r. cbn [collect]. rewrite cwd_ok. reflexivity.
+  Qed.
+End RelProofs.
